@@ -54,6 +54,13 @@ var trFuncsHtml = [][2]string{
 	{"", "getSrcBranchURL"}, {"", "srcURL"}, {"", "pkgURL"},
 }
 
+// the root finding of path rebasing (context.go): a fourth group.  os.Stat and os.ReadFile are oracles of the
+// environment; getFiles, splitPath, path.Dir, the regular expression reModule and the three helpers tied in the
+// second group (isRootedIn, hasPrefix, hasSrcPrefix) are the hand-written model functions.
+var trFuncsRoots = [][2]string{
+	{"gomodCache", "isGoModule"}, {"Snapshot", "findRoots"},
+}
+
 func trName(recv, fn string) string {
 	if recv == "" {
 		return fn
@@ -140,6 +147,16 @@ type translator struct {
 	envSigs  map[string]string
 	submatch map[types.Object]bool // variables holding the result of FindStringSubmatch
 	void     bool // no result: the translation returns the receiver it assigned through
+	// console group (translate_ui.go)
+	uiSel    map[*ast.SelectorExpr]ast.Expr   // promoted selectors, made explicit
+	uiCall   map[*ast.CallExpr]*ast.CallExpr  // calls rewritten (promoted receivers, Stringer operands of Sprintf)
+	uiAppend map[*ast.CallExpr]bool           // append calls checked to be `v = append(v, …)` on an unshared local
+	body     *ast.BlockStmt                   // the body of the function being translated
+	// group Roots only (see the section "group Roots" at the end of this file): continue / break,
+	// nested loops, join blocks, maps that are written, possibly-negative differences
+	roots   bool
+	frames  []trFrame
+	mapInit map[string]bool // map-valued paths known to hold a non-nil map (see mapPath)
 }
 
 func (t *translator) fail(n ast.Node, f string, a ...interface{}) {
@@ -157,6 +174,9 @@ func (t *translator) leanType(n ast.Node, ty types.Type) string {
 	case *types.Pointer:
 		return t.leanType(n, x.Elem())
 	case *types.Named:
+		if r, ok := t.uiNamedType(n, x); ok {
+			return r
+		}
 		switch x.Obj().Name() {
 		case "Arg", "Args", "Call", "Stack", "Signature", "Func", "Goroutine":
 			return x.Obj().Name()
@@ -167,9 +187,15 @@ func (t *translator) leanType(n ast.Node, ty types.Type) string {
 			return "Lvl"
 		case "Location":
 			return "Loc"
+		case "Snapshot":
+			// the model's record of the six fields findRoots reads and writes (PP/Model/Roots.lean)
+			return "Snapshot"
 		}
 		if b, ok := x.Underlying().(*types.Basic); ok && b.Info()&types.IsString != 0 {
 			return "Bytes" // template.URL, template.HTML: strings
+		}
+		if m, ok := x.Underlying().(*types.Map); ok {
+			return t.leanType(n, m) // gomodCache
 		}
 	case *types.Basic:
 		switch {
@@ -190,6 +216,10 @@ func (t *translator) leanType(n ast.Node, ty types.Type) string {
 		}
 		return "(List " + t.leanType(n, x.Elem()) + ")"
 	case *types.Map:
+		if st, ok := x.Elem().Underlying().(*types.Struct); ok && st.NumFields() == 0 {
+			// map[K]struct{}: a set, the list of its keys (SSet in PreludeRoots.lean)
+			return "(List " + t.leanType(n, x.Key()) + ")"
+		}
 		// a Go map the code only ranges over / looks keys up in: an association list
 		return "(List (" + t.leanType(n, x.Key()) + " × " + t.leanType(n, x.Elem()) + "))"
 	case *types.Tuple:
@@ -254,6 +284,9 @@ func fieldGet(sn, term, field string) string {
 	if r, ok := trFieldRename[sn+"."+field]; ok {
 		f = r
 	}
+	if r, ok := trGroupFields[sn+"."+field]; ok {
+		f = r
+	}
 	if sn == "Arg" {
 		return fmt.Sprintf("(ofArg %s).%s", term, f)
 	}
@@ -263,6 +296,9 @@ func fieldGet(sn, term, field string) string {
 func fieldSet(sn, term, field, val string) string {
 	f := lowerFirst(field)
 	if r, ok := trFieldRename[sn+"."+field]; ok {
+		f = r
+	}
+	if r, ok := trGroupFields[sn+"."+field]; ok {
 		f = r
 	}
 	if sn == "Arg" {
@@ -290,6 +326,9 @@ func (t *translator) pure(e ast.Expr) (s string, ok bool) {
 type trImpure struct{}
 
 func (t *translator) pureExpr(e ast.Expr) string {
+	if t.roots {
+		t.rootsConstGuard(e)
+	}
 	if tv, ok := t.p.info.Types[e]; ok && tv.Value != nil {
 		switch tv.Value.Kind() {
 		case constant.Bool:
@@ -307,7 +346,13 @@ func (t *translator) pureExpr(e ast.Expr) string {
 						return c
 					}
 				}
+				if c, ok := t.uiQualifiedEnum(e); ok {
+					return c
+				}
 				t.fail(e, "enum constant expression")
+			}
+			if c, ok := t.uiEnumConst(e, tv.Type); ok {
+				return c
 			}
 			return tv.Value.ExactString()
 		}
@@ -334,6 +379,9 @@ func (t *translator) pureExpr(e ast.Expr) string {
 			return "(!" + t.pureExpr(x.X) + ")"
 		}
 	case *ast.SelectorExpr:
+		if y := t.uiPromoted(x); y != ast.Expr(x) {
+			return t.pureExpr(y)
+		}
 		sn := structName(t.typeOf(x.X))
 		if sn == "" {
 			t.fail(e, "selector on non-struct")
@@ -392,6 +440,7 @@ func (t *translator) pureExpr(e ast.Expr) string {
 // builtinCall maps the library and package functions the translated code uses
 // to their model counterparts; sub translates an argument.
 func (t *translator) builtinCall(x *ast.CallExpr, sub func(ast.Expr) string) (string, bool) {
+	x = t.uiRewriteCall(x)
 	// conversions []byte("…"), string(x)
 	if _, ok := x.Fun.(*ast.ArrayType); ok && len(x.Args) == 1 {
 		return sub(x.Args[0]), true
@@ -438,6 +487,9 @@ func (t *translator) builtinCall(x *ast.CallExpr, sub func(ast.Expr) string) (st
 			return "", false
 		}
 		return constant.StringVal(tv.Value), true
+	}
+	if s, ok := t.uiBuiltin(name, x, sub); ok {
+		return s, true
 	}
 	switch name {
 	case "url.QueryEscape":
@@ -498,6 +550,12 @@ func (t *translator) builtinCall(x *ast.CallExpr, sub func(ast.Expr) string) (st
 				lit += "%"
 				continue
 			}
+			if n, term := t.uiSprintfVerb(x, f[i:], &ai, sub); n > 0 {
+				flush()
+				parts = append(parts, term)
+				i += n - 1
+				continue
+			}
 			if ai >= len(x.Args) {
 				t.fail(x, "fmt.Sprintf: missing argument")
 			}
@@ -534,6 +592,10 @@ func (t *translator) builtinCall(x *ast.CallExpr, sub func(ast.Expr) string) (st
 		// stack.go: the keys of the map, longest first, ties in lexical order (the model's sortedByLen;
 		// its agreement with the Go function is checked by the correspondence stream of C18)
 		return fmt.Sprintf("(sortedByLen %s)", atom(sub(x.Args[0]))), true
+	case "getFiles", "splitPath", "isRootedIn", "hasPrefix", "hasSrcPrefix", "path.Dir", "regexp:reModule.FindSubmatch":
+		if s, ok := t.rootsBuiltin(x, name, sub); ok {
+			return s, true
+		}
 	case "isFile":
 		// os.Stat: an oracle of the environment
 		return fmt.Sprintf("(E.isFile %s)", atom(sub(x.Args[0]))), true
@@ -555,6 +617,13 @@ func (t *translator) builtinCall(x *ast.CallExpr, sub func(ast.Expr) string) (st
 
 func (t *translator) composite(x *ast.CompositeLit, sub func(ast.Expr) string) string {
 	ty := t.typeOf(x)
+	if _, ok := ty.Underlying().(*types.Map); ok && t.roots {
+		// map[K]V{} / gomodCache{}: a fresh, empty map
+		if len(x.Elts) != 0 {
+			t.fail(x, "non-empty map literal")
+		}
+		return "([] : " + t.leanType(x, ty) + ")"
+	}
 	if a, ok := ty.(*types.Array); ok {
 		if len(x.Elts) != 0 {
 			t.fail(x, "non-empty array literal")
@@ -574,6 +643,9 @@ func (t *translator) composite(x *ast.CompositeLit, sub func(ast.Expr) string) s
 		k := kv.Key.(*ast.Ident).Name
 		f := lowerFirst(k)
 		if r, ok := trFieldRename[sn+"."+k]; ok {
+			f = r
+		}
+		if r, ok := trGroupFields[sn+"."+k]; ok {
 			f = r
 		}
 		fs = append(fs, fmt.Sprintf("%s := %s", f, sub(kv.Value)))
@@ -606,13 +678,23 @@ func (t *translator) binop(x *ast.BinaryExpr, a, b string) string {
 		}
 		return fmt.Sprintf("(decide (%s > %s))", a, b)
 	case token.ADD:
+		if w, ok := t.uiUnsignedOp(x); ok {
+			return fmt.Sprintf("((%s + %s) %% %s)", a, b, w)
+		}
 		if !isStr {
 			return fmt.Sprintf("(%s + %s)", a, b)
 		}
 		return fmt.Sprintf("(%s ++ %s)", a, b)
 	case token.SUB:
+		if t.roots {
+			// Nat subtraction truncates at 0, Go's does not: only a difference that is a slice bound or an
+			// index is translated in this group (goSub, see bindRoots)
+			t.fail(x, "integer subtraction whose result may be negative (only supported as a slice bound or index)")
+		}
+		t.uiUnsignedOp(x)
 		return fmt.Sprintf("(%s - %s)", a, b)
 	case token.MUL:
+		t.uiUnsignedOp(x)
 		return fmt.Sprintf("(%s * %s)", a, b)
 	}
 	t.fail(x, "unsupported operator %s", x.Op)
@@ -624,6 +706,11 @@ func (t *translator) binop(x *ast.BinaryExpr, a, b string) string {
 func (t *translator) bind(e ast.Expr, k func(string) string) string {
 	if s, ok := t.pure(e); ok {
 		return k(s)
+	}
+	if t.roots {
+		if s, ok := t.bindRoots(e, k); ok {
+			return s
+		}
 	}
 	switch x := e.(type) {
 	case *ast.ParenExpr:
@@ -638,6 +725,9 @@ func (t *translator) bind(e ast.Expr, k func(string) string) string {
 			return t.bind(x.X, func(v string) string { return k("(!" + v + ")") })
 		}
 	case *ast.SelectorExpr:
+		if y := t.uiPromoted(x); y != ast.Expr(x) {
+			return t.bind(y, k)
+		}
 		sn := structName(t.typeOf(x.X))
 		return t.bind(x.X, func(v string) string { return k(fieldGet(sn, v, x.Sel.Name)) })
 	case *ast.IndexExpr:
@@ -680,6 +770,7 @@ func (t *translator) bind(e ast.Expr, k func(string) string) string {
 			})
 		})
 	case *ast.CallExpr:
+		x = t.uiRewriteCall(x)
 		// library functions with impure arguments: bind the arguments first
 		{
 			var vals = map[ast.Expr]string{}
@@ -910,6 +1001,10 @@ func terminates(list []ast.Stmt) bool {
 	switch s := list[len(list)-1].(type) {
 	case *ast.ReturnStmt:
 		return true
+	case *ast.BranchStmt:
+		// continue / break leave the statement list too (translated in group Roots only; everywhere else a
+		// BranchStmt fails the translation; a break inside a switch is refused there as well)
+		return s.Label == nil && (s.Tok == token.CONTINUE || s.Tok == token.BREAK)
 	case *ast.BlockStmt:
 		return terminates(s.List)
 	case *ast.IfStmt:
@@ -953,6 +1048,9 @@ func hasReturn(n ast.Node) bool {
 
 // assigned returns the in-scope locals (declared outside n) that n assigns to.
 func (t *translator) assigned(n ast.Node, outer []trLocal) []trLocal {
+	if t.roots {
+		return t.assignedObj(n, outer)
+	}
 	set := map[string]bool{}
 	root := func(e ast.Expr) string {
 		for {
@@ -1070,6 +1168,9 @@ func unpack(vs []trLocal, st string, ind string) string {
 type trEnd func() string
 
 func (t *translator) wrapRet(v string) string {
+	if t.roots {
+		return t.jumpRet(v)
+	}
 	if t.recvMut != "" {
 		v = "(" + t.recvMut + ", " + v + ")"
 	}
@@ -1136,6 +1237,11 @@ func (t *translator) stmts(list []ast.Stmt, end trEnd) string {
 			}
 		}
 		t.fail(x, "expression statement")
+	case *ast.BranchStmt:
+		if t.roots {
+			return t.branchRoots(x)
+		}
+		t.fail(x, "unsupported statement %T", s)
 	case *ast.ReturnStmt:
 		if len(x.Results) == 0 {
 			if t.void {
@@ -1159,6 +1265,9 @@ func (t *translator) stmts(list []ast.Stmt, end trEnd) string {
 		if gd, ok := x.Decl.(*ast.GenDecl); ok && gd.Tok == token.CONST {
 			return cont() // uses of a constant are folded by the type checker's constant values
 		}
+		if s, ok := t.uiVarDecl(x, cont); ok {
+			return s
+		}
 		t.fail(x, "declaration statement")
 	case *ast.IncDecStmt:
 		op := token.ADD
@@ -1171,6 +1280,11 @@ func (t *translator) stmts(list []ast.Stmt, end trEnd) string {
 		t.p.info.Types[rhs] = types.TypeAndValue{Type: t.typeOf(x.X)}
 		return t.assign(x, x.X, rhs, cont)
 	case *ast.AssignStmt:
+		if t.roots {
+			if s, ok := t.assignRoots(x, rest, end); ok {
+				return s
+			}
+		}
 		if len(x.Lhs) > 1 && len(x.Rhs) == 1 && (x.Tok == token.DEFINE || x.Tok == token.ASSIGN) {
 			// a, b := f(…)  /  a, _ = f(…): the components of the tuple the call yields
 			if _, isCall := x.Rhs[0].(*ast.CallExpr); !isCall {
@@ -1341,6 +1455,11 @@ func (t *translator) stmts(list []ast.Stmt, end trEnd) string {
 			y.Init = nil
 			return t.stmts(append([]ast.Stmt{x.Init, &y}, rest...), end)
 		}
+		if t.roots {
+			if s, ok := t.ifRoots(x, rest, end); ok {
+				return s
+			}
+		}
 		var el []ast.Stmt
 		switch e := x.Else.(type) {
 		case *ast.BlockStmt:
@@ -1372,9 +1491,10 @@ func (t *translator) stmts(list []ast.Stmt, end trEnd) string {
 				return fmt.Sprintf("if %s then\n%s  %s\n%selse\n%s%s", c, t.ind(), a, t.ind(), t.ind(), b)
 			})
 		}
-		if hasReturn(x.Body) || (x.Else != nil && hasReturn(x.Else)) {
+		if hasReturn(x.Body) || (x.Else != nil && hasReturn(x.Else)) || uiHasLoop(x.Body) || (x.Else != nil && uiHasLoop(x.Else)) {
 			// returns on some paths only: each branch is followed by the rest of the block
-			// (the rest is translated once per branch)
+			// (the rest is translated once per branch); the same for a branch that contains a loop
+			// (what follows a loop must have the type of the function's result: see `after`)
 			return t.bind(x.Cond, func(c string) string {
 				saveScope := append([]trLocal{}, t.scope...)
 				t.depth++
@@ -1433,6 +1553,10 @@ func (t *translator) stmts(list []ast.Stmt, end trEnd) string {
 			return fmt.Sprintf("(if %s then\n%s  %s\n%selse\n%s  %s).bind fun %s =>\n%s%s", c, t.ind(), a, t.ind(), t.ind(), b, pat, t.ind(), cont())
 		})
 	case *ast.SwitchStmt:
+		if t.roots {
+			t.switchRootsGuard(x)
+		}
+		x = t.uiNoFallthrough(x)
 		if x.Init != nil || x.Tag == nil || !terminates([]ast.Stmt{x}) {
 			// switch init; tag { case a, b: A … default: D }  ==  { init; if tag == a || tag == b { A } else … else { D } }
 			// (no clause may break or fall through; the tag is an expression without effect, evaluated once in Go
@@ -1530,8 +1654,17 @@ func (t *translator) stmts(list []ast.Stmt, end trEnd) string {
 		fmt.Fprintf(&sb, "\n%s  %s", t.ind(), body)
 		return sb.String()
 	case *ast.RangeStmt:
+		if t.roots {
+			if x.Tok != token.DEFINE {
+				t.fail(x, "range that assigns to existing variables")
+			}
+			return t.loopRoots(x, x.X, x.Key, x.Value, x.Body, nil, cont)
+		}
 		return t.loop(x, x.X, x.Key, x.Value, x.Body, nil, cont)
 	case *ast.ForStmt:
+		if t.roots {
+			return t.forRoots(x, cont)
+		}
 		// for i := a; i < b; i++ { … }
 		as, ok1 := x.Init.(*ast.AssignStmt)
 		cond, ok2 := x.Cond.(*ast.BinaryExpr)
@@ -1597,6 +1730,11 @@ func (t *translator) assign(n ast.Node, lhs, rhs ast.Expr, cont func() string) s
 
 // assignVal: lhs = rhs, or lhs = the Lean term val when rhs is nil.
 func (t *translator) assignVal(n ast.Node, lhs, rhs ast.Expr, val string, cont func() string) string {
+	if t.roots {
+		if s, ok := t.assignMapRoots(n, lhs, rhs, val, cont); ok {
+			return s
+		}
+	}
 	type step struct {
 		field string // field name, or "" for an index
 		sn    string // struct name of the container (field steps)
@@ -1613,6 +1751,10 @@ func (t *translator) assignVal(n ast.Node, lhs, rhs ast.Expr, val string, cont f
 			e = x.X
 			continue
 		case *ast.SelectorExpr:
+			if y := t.uiPromoted(x); y != ast.Expr(x) {
+				e = y
+				continue
+			}
 			path = append([]step{{field: x.Sel.Name, sn: structName(t.typeOf(x.X))}}, path...)
 			e = x.X
 			continue
@@ -1675,7 +1817,8 @@ func (t *translator) assignVal(n ast.Node, lhs, rhs ast.Expr, val string, cont f
 // loop emits the body as a separate definition and the loop site as
 // `after (forRange body xs 0 st) fun st => rest`.
 func (t *translator) loop(n ast.Node, rangeX ast.Expr, key, val ast.Expr, body *ast.BlockStmt, listTerm *string, cont func() string) string {
-	if t.inLoop {
+	nested := t.inLoop
+	if nested && !trGroupNested {
 		t.fail(n, "nested loop")
 	}
 	outer := append([]trLocal{}, t.scope...)
@@ -1722,7 +1865,7 @@ func (t *translator) loop(n ast.Node, rangeX ast.Expr, key, val ast.Expr, body *
 		t.inLoop, t.stVars, t.depth = true, vs, 0
 		t.scope = append(append([]trLocal{}, outer...), trLocal{keyName, "Nat", keyObj}, trLocal{valName, elemType, valObj})
 		b := t.stmts(body.List, func() string { return "some (.cont " + atom(tuple(vs)) + ")" })
-		t.inLoop, t.stVars, t.depth, t.scope = false, saveSt, saveDepth, saveScope
+		t.inLoop, t.stVars, t.depth, t.scope = nested, saveSt, saveDepth, saveScope
 		def := fmt.Sprintf("def %s (E : Env) %s (%s : Nat) (%s : %s) (st : %s) : Option (Step %s %s) :=\n%s  %s\n",
 			name, strings.Join(bind, " "), keyName, valName, elemType, tupleType(vs), tupleType(vs), t.ret,
 			unpack(vs, "st", "  "), b)
@@ -1736,6 +1879,10 @@ func (t *translator) loop(n ast.Node, rangeX ast.Expr, key, val ast.Expr, body *
 		if len(vs) > 1 {
 			pat = "st"
 			un = strings.ReplaceAll(unpack(vs, "st", t.ind()), "\n", "\n")
+		}
+		if nested {
+			// a loop inside a loop body: what follows it yields a Step of the enclosing loop (PreludeUi.afterIn)
+			return fmt.Sprintf("afterIn (forRange (%s E %s) %s 0 %s) fun %s =>\n%s%s%s", name, strings.Join(args, " "), xs, tuple(vs), pat, un, t.indIf(un == ""), rest)
 		}
 		return fmt.Sprintf("after (forRange (%s E %s) %s 0 %s) fun %s =>\n%s%s%s", name, strings.Join(args, " "), xs, tuple(vs), pat, un, t.indIf(un == ""), rest)
 	}
@@ -1787,6 +1934,11 @@ func (p *pkgInfo) translateHtml() string {
 	return p.translateGroup("PP.TrH", "stack/html.go", trFuncsHtml, false, []string{"PP.Go.PreludeHtml"}, []string{"runtimeVersion : Bytes"})
 }
 
+func (p *pkgInfo) translateRoots() string {
+	return p.translateGroup("PP.TrR", "stack/context.go", trFuncsRoots, false, []string{"PP.Go.PreludeRoots"},
+		[]string{"isFile : Bytes → Bool", "readFile : Bytes → Option Bytes"})
+}
+
 func (p *pkgInfo) translateGroup(ns, from string, trFuncs [][2]string, withClosure bool, imports, oracles []string) string {
 	funcs := map[string]bool{}
 	for _, f := range trFuncs {
@@ -1799,7 +1951,7 @@ func (p *pkgInfo) translateGroup(ns, from string, trFuncs [][2]string, withClosu
 		changed = false
 		for _, f := range trFuncs {
 			name := trName(f[0], f[1])
-			fd := p.funcDecl(f[0], f[1])
+			fd := p.uiPkgOf(name).funcDecl(f[0], f[1])
 			if mutating[name] || fd == nil || fd.Recv == nil || len(fd.Recv.List) != 1 || len(fd.Recv.List[0].Names) != 1 {
 				continue
 			}
@@ -1845,7 +1997,7 @@ func (p *pkgInfo) translateGroup(ns, from string, trFuncs [][2]string, withClosu
 					}
 				case *ast.CallExpr:
 					if sel, ok := x.Fun.(*ast.SelectorExpr); ok && rootIs(sel.X) {
-						if tv, ok := p.info.Types[sel.X]; ok && mutating[structName(tv.Type)+"_"+sel.Sel.Name] {
+						if tv, ok := p.uiPkgOf(name).info.Types[sel.X]; ok && mutating[structName(tv.Type)+"_"+sel.Sel.Name] {
 							writes = true
 						}
 					}
@@ -1878,6 +2030,7 @@ func (p *pkgInfo) translateGroup(ns, from string, trFuncs [][2]string, withClosu
 	var bodies []string
 	var failed []string
 	for _, f := range trFuncs {
+		p := p.uiPkgOf(trName(f[0], f[1])) // the package the function comes from (a group may span two)
 		fd := p.funcDecl(f[0], f[1])
 		name := trName(f[0], f[1])
 		if fd == nil {
@@ -1885,6 +2038,7 @@ func (p *pkgInfo) translateGroup(ns, from string, trFuncs [][2]string, withClosu
 			continue
 		}
 		t := &translator{p: p, fn: name, funcs: funcs, mutating: mutating}
+		t.roots = ns == "PP.TrR"
 		func() {
 			defer func() {
 				if r := recover(); r != nil {
@@ -1914,6 +2068,9 @@ func (p *pkgInfo) translateGroup(ns, from string, trFuncs [][2]string, withClosu
 			}
 			add(fd.Recv)
 			add(fd.Type.Params)
+			if t.roots {
+				t.rootsPrepass(fd)
+			}
 			if fd.Type.Results == nil || len(fd.Type.Results.List) == 0 {
 				if !mutating[name] {
 					t.fail(fd, "function without result that does not assign through its receiver")
@@ -1945,6 +2102,7 @@ func (p *pkgInfo) translateGroup(ns, from string, trFuncs [][2]string, withClosu
 				t.scope = append(t.scope, trLocal{lid(rn), t.params[0].typ, t.params[0].obj})
 				t.ret = "(" + t.params[0].typ + " × " + t.ret + ")"
 			}
+			t.body = fd.Body
 			t.submatch = map[types.Object]bool{}
 			ast.Inspect(fd.Body, func(n ast.Node) bool {
 				if as, ok := n.(*ast.AssignStmt); ok && len(as.Lhs) == 1 && len(as.Rhs) == 1 {
@@ -2048,6 +2206,9 @@ func (p *pkgInfo) translateGroup(ns, from string, trFuncs [][2]string, withClosu
 		fmt.Fprintf(&out, "/-- the comparison closure of Snapshot.Aggregate (bucket.go:%d), on (bs[i], bs[j]) -/\ndef %s (E : Env) (%s : Bkt) (%s : Bkt) : Option Bool :=\n  %s\n", pos.Line, name, names[0], names[1], body)
 		bodies = append(bodies, out.String())
 	}()
+	if ns == "PP.TrR" {
+		failed = append(failed, p.rootsCallersGuard(trFuncs, mutating)...)
+	}
 	if len(failed) != 0 {
 		sort.Strings(failed)
 		// a declaration that cannot be checked, naming what was not translated
@@ -2068,4 +2229,1164 @@ func (p *pkgInfo) translateGroup(ns, from string, trFuncs [][2]string, withClosu
 	}
 	fmt.Fprintf(&sb, "end %s\n", ns)
 	return sb.String()
+}
+
+// ---------------------------------------------------------------- group Roots
+//
+// Everything below is used by the fourth group only (t.roots; translateRoots): the root finding of
+// context.go, (*gomodCache).isGoModule and (*Snapshot).findRoots.  The other groups never reach it, so
+// their output does not depend on it.  Run-time support: lean/PP/Go/PreludeRoots.lean.
+//
+// What is added, and what each construct assumes:
+//
+//   - `continue` and `break` (unlabelled, targeting a `for`; a `break` inside a `switch` is refused): the loop
+//     body yields `.cont st` / `.brk st` with the loop-carried state as it is at that point.  A loop whose body
+//     has a `break` of its own runs under `forRangeB` over the three-way `StepB`.
+//   - nested loops: an inner loop is its own definition, its result type is the result type of the context it
+//     occurs in.  In general a term translated inside k enclosing frames has type
+//     `Option (Step σk (… (Step σ1 ρ)))`; a `return v` is `.ret (… (.ret v))`, a `continue` is
+//     `.ret (… (.cont st))` with one `.ret` per join block between the statement and its loop.
+//   - join blocks: `if c { A } [else { B }]; rest` where A or B contains a jump but not both branches leave is
+//     `after (if c then A' else B') fun vs => rest`: falling off a branch is `.cont vs` (the locals the
+//     statement assigns), a jump out of it is `.ret j`.  (The other groups translate `rest` once per branch.)
+//   - counted loops that count down: `for i := a; i > b; i--` runs over `(List.range' (b+1) (a-b)).reverse`;
+//     `a`, `b` pure, `b` not assigned in the body, `i` not assigned in the body.
+//   - `int` values are natural numbers BY CONSTRUCTION in this group: subtraction, `--`, negative constants
+//     and int parameters are refused, with one exception: a difference `a - b` that is directly a slice
+//     bound or an index is `goSub a b` (`none` when b > a), because Go panics on a negative bound.
+//   - maps that are written: `m[k] = v` on a map[string]string is `AMap.insert`, on a map[K]struct{} (a set,
+//     the list of its keys) `SSet.insert`; `_, ok := m[k]` is `SSet.contains` / `AMap.contains`; `map[K]V{}`
+//     and `T{}` of a map type are the empty list.  Go maps are references: a map value may only come from
+//     such a literal (copying one, `m2 := m`, is refused), so no two variables share a map; a method with a
+//     pointer receiver of map type that writes it returns the map like any other mutating method.
+//     An assignment into a nil map panics in Go and the list cannot tell nil from empty: `m[k] = v` is only
+//     translated where m (a variable or a field path) is assigned a map literal in the straight-line
+//     statements the function starts with and nothing later replaces the variable it is rooted in, or
+//     where m is `*recv` for a pointer receiver of map type; then every call of that method must be inside
+//     the group and on such a variable (mapNilGuard, rootsCallersGuard).
+//   - `b, err := os.ReadFile(p); if err != nil { … leaves … }` is a `match E.readFile p` (`none` = any error);
+//     neither branch may read `err`, the error branch may not read `b`.
+//   - `if runtime.GOOS == "windows" { … }` (exactly this comparison, no else) is dropped: the condition is the
+//     constant false on the platform the extractor runs on (checked); any other use of a constant of package
+//     runtime is refused.
+//   - a range expression is evaluated once; the body may not write through the same field of the same
+//     variable (aliasing of the backing array).  Ranging over a map is refused.
+
+type trFrame struct {
+	loop  bool      // a loop body (otherwise a join block)
+	brk   bool      // the loop has a break of its own: the body yields StepB
+	vs    []trLocal // the loop-carried state / the locals the block assigns
+	resTy string    // terms translated inside the frame have type Option resTy
+}
+
+// curRes: terms at the current position have type Option (curRes)
+func (t *translator) curRes() string {
+	if len(t.frames) == 0 {
+		return t.ret
+	}
+	return t.frames[len(t.frames)-1].resTy
+}
+
+func unparen(e ast.Expr) ast.Expr {
+	for {
+		p, ok := e.(*ast.ParenExpr)
+		if !ok {
+			return e
+		}
+		e = p.X
+	}
+}
+
+func copyScope(s []trLocal) []trLocal { return append([]trLocal{}, s...) }
+
+// jumpRet: `return v` from inside the current frames
+func (t *translator) jumpRet(v string) string {
+	if t.recvMut != "" {
+		v = "(" + t.recvMut + ", " + v + ")"
+	}
+	if len(t.frames) == 0 {
+		return "some " + atom(v)
+	}
+	term := "(.ret " + atom(v) + ")"
+	for i := 1; i < len(t.frames); i++ {
+		term = "(.ret " + term + ")"
+	}
+	return "some " + term
+}
+
+// checkVs: the names of the state tuple must still denote the variables of the state (an inner
+// declaration of the same name would capture them in the flattened translation)
+func (t *translator) checkVs(n ast.Node, vs []trLocal) {
+	for _, v := range vs {
+		for i := len(t.scope) - 1; i >= 0; i-- {
+			if t.scope[i].name == v.name {
+				if v.obj != nil && t.scope[i].obj != v.obj {
+					t.fail(n, "%s is shadowed by an inner declaration where the enclosing loop or block is left", v.name)
+				}
+				break
+			}
+		}
+	}
+}
+
+// jumpLoop: continue / break of the innermost enclosing loop
+func (t *translator) jumpLoop(n ast.Node, brk bool) string {
+	l := -1
+	for i := len(t.frames) - 1; i >= 0; i-- {
+		if t.frames[i].loop {
+			l = i
+			break
+		}
+	}
+	if l < 0 {
+		t.fail(n, "continue / break outside a loop")
+	}
+	if !t.inLoop {
+		// inside a branch the other groups' code translates as a value (assignment-only if, branch on a search)
+		t.fail(n, "continue / break inside a branch that is translated as a value")
+	}
+	f := t.frames[l]
+	if brk && !f.brk {
+		t.fail(n, "internal: break in a loop that was not recognised as having one")
+	}
+	t.checkVs(n, f.vs)
+	c := ".cont"
+	if brk {
+		c = ".brk"
+	}
+	term := "(" + c + " " + atom(tuple(f.vs)) + ")"
+	for i := l + 1; i < len(t.frames); i++ {
+		term = "(.ret " + term + ")"
+	}
+	return "some " + term
+}
+
+func (t *translator) branchRoots(x *ast.BranchStmt) string {
+	if x.Label != nil {
+		t.fail(x, "labelled %s", x.Tok)
+	}
+	switch x.Tok {
+	case token.CONTINUE:
+		return t.jumpLoop(x, false)
+	case token.BREAK:
+		return t.jumpLoop(x, true)
+	}
+	t.fail(x, "unsupported statement %s", x.Tok)
+	return ""
+}
+
+// walkOwn visits the statements of n that belong to the same loop level as n: it does not enter nested
+// loops (whose continue / break are their own) nor function literals; nested reports them.
+func walkOwn(n ast.Node, visit func(ast.Node), nested func(ast.Node)) {
+	ast.Inspect(n, func(m ast.Node) bool {
+		if m == nil {
+			return false
+		}
+		if m != n {
+			switch m.(type) {
+			case *ast.ForStmt, *ast.RangeStmt:
+				if nested != nil {
+					nested(m)
+				}
+				return false
+			case *ast.FuncLit:
+				return false
+			}
+		}
+		visit(m)
+		return true
+	})
+}
+
+// hasJump: does n contain a statement that leaves n other than by falling off its end (a return anywhere,
+// a continue / break / goto that is not captured by a loop inside n)?
+func hasJump(n ast.Node) bool {
+	found := false
+	var inner func(m ast.Node)
+	inner = func(m ast.Node) {
+		// inside a nested loop: only returns (and anything labelled, conservatively) leave n
+		ast.Inspect(m, func(k ast.Node) bool {
+			switch s := k.(type) {
+			case *ast.ReturnStmt:
+				found = true
+			case *ast.BranchStmt:
+				if s.Label != nil || s.Tok == token.GOTO {
+					found = true
+				}
+			case *ast.FuncLit:
+				return false
+			}
+			return !found
+		})
+	}
+	walkOwn(n, func(m ast.Node) {
+		switch m.(type) {
+		case *ast.ReturnStmt, *ast.BranchStmt:
+			found = true
+		}
+	}, inner)
+	return found
+}
+
+// breaksLoop: does the loop body contain an unlabelled break of this loop?
+func breaksLoop(body *ast.BlockStmt) bool {
+	found := false
+	walkOwn(body, func(m ast.Node) {
+		if b, ok := m.(*ast.BranchStmt); ok && b.Tok == token.BREAK && b.Label == nil {
+			found = true
+		}
+	}, nil)
+	return found
+}
+
+// a break inside a switch leaves the switch, not the loop: refused
+func (t *translator) switchRootsGuard(x *ast.SwitchStmt) {
+	walkOwn(x.Body, func(m ast.Node) {
+		if b, ok := m.(*ast.BranchStmt); ok && (b.Tok == token.BREAK || b.Tok == token.FALLTHROUGH) {
+			t.fail(b, "break or fallthrough inside a switch")
+		}
+	}, nil)
+}
+
+// rootObj: the variable an assignable expression is rooted in
+func (t *translator) rootObj(e ast.Expr) types.Object {
+	for {
+		switch x := e.(type) {
+		case *ast.Ident:
+			return t.p.info.ObjectOf(x)
+		case *ast.SelectorExpr:
+			e = x.X
+		case *ast.IndexExpr:
+			e = x.X
+		case *ast.SliceExpr:
+			e = x.X
+		case *ast.StarExpr:
+			e = x.X
+		case *ast.ParenExpr:
+			e = x.X
+		default:
+			return nil
+		}
+	}
+}
+
+// assignedSet: the variables (declared anywhere) that n assigns to or through, by identity
+func (t *translator) assignedSet(n ast.Node) map[types.Object]bool {
+	set := map[types.Object]bool{}
+	add := func(e ast.Expr) {
+		if o := t.rootObj(e); o != nil {
+			set[o] = true
+		}
+	}
+	ast.Inspect(n, func(m ast.Node) bool {
+		switch s := m.(type) {
+		case *ast.AssignStmt:
+			for _, l := range s.Lhs {
+				if id, ok := l.(*ast.Ident); ok && s.Tok == token.DEFINE && t.p.info.Defs[id] != nil {
+					continue // a new variable
+				}
+				add(l)
+			}
+		case *ast.IncDecStmt:
+			add(s.X)
+		case *ast.CallExpr:
+			if sel, ok := s.Fun.(*ast.SelectorExpr); ok {
+				if tv, ok := t.p.info.Types[sel.X]; ok && t.mutating[structName(tv.Type)+"_"+sel.Sel.Name] {
+					add(sel.X)
+				}
+			}
+		case *ast.RangeStmt:
+			if s.Tok == token.ASSIGN {
+				if s.Key != nil {
+					add(s.Key)
+				}
+				if s.Value != nil {
+					add(s.Value)
+				}
+			}
+		}
+		return true
+	})
+	return set
+}
+
+// assignedObj: the bindings of outer that n assigns (the object-based version of assigned)
+func (t *translator) assignedObj(n ast.Node, outer []trLocal) []trLocal {
+	set := t.assignedSet(n)
+	var res []trLocal
+	seen := map[string]bool{}
+	for _, l := range outer {
+		if l.obj != nil && set[l.obj] && !seen[l.name] {
+			seen[l.name] = true
+			res = append(res, l)
+		}
+	}
+	return res
+}
+
+func (t *translator) isPkgSel(e ast.Expr, pkgPath, name string) bool {
+	sel, ok := e.(*ast.SelectorExpr)
+	if !ok || sel.Sel.Name != name {
+		return false
+	}
+	id, ok := sel.X.(*ast.Ident)
+	if !ok {
+		return false
+	}
+	pn, ok := t.p.info.Uses[id].(*types.PkgName)
+	return ok && pn.Imported().Path() == pkgPath
+}
+
+// rootsConstGuard: constants the type checker folded must not depend on the platform, and must be
+// natural numbers when they are integers
+func (t *translator) rootsConstGuard(e ast.Expr) {
+	tv, ok := t.p.info.Types[e]
+	if !ok || tv.Value == nil {
+		return
+	}
+	ast.Inspect(e, func(n ast.Node) bool {
+		if sel, ok := n.(*ast.SelectorExpr); ok {
+			if id, ok := sel.X.(*ast.Ident); ok {
+				if pn, ok := t.p.info.Uses[id].(*types.PkgName); ok && pn.Imported().Path() == "runtime" {
+					t.fail(e, "runtime.%s: a constant that depends on the platform", sel.Sel.Name)
+				}
+			}
+		}
+		return true
+	})
+	if tv.Value.Kind() == constant.Int && constant.Sign(tv.Value) < 0 {
+		t.fail(e, "negative integer constant")
+	}
+}
+
+// isGOOSWindows: the condition is literally runtime.GOOS == "windows" (and false where the extractor runs)
+func (t *translator) isGOOSWindows(cond ast.Expr) bool {
+	b, ok := unparen(cond).(*ast.BinaryExpr)
+	if !ok || b.Op != token.EQL || !t.isPkgSel(b.X, "runtime", "GOOS") {
+		return false
+	}
+	lit, ok := b.Y.(*ast.BasicLit)
+	if !ok || lit.Kind != token.STRING || lit.Value != `"windows"` {
+		return false
+	}
+	tv, ok := t.p.info.Types[cond]
+	if !ok || tv.Value == nil || tv.Value.Kind() != constant.Bool || constant.BoolVal(tv.Value) {
+		t.fail(cond, "runtime.GOOS == \"windows\" is not the constant false for the platform the extractor was run for")
+	}
+	return true
+}
+
+// rootsBuiltin: the functions of the environment of group Roots that are hand-written model functions
+func (t *translator) rootsBuiltin(x *ast.CallExpr, name string, sub func(ast.Expr) string) (string, bool) {
+	if !t.roots || t.funcs[name] {
+		return "", false
+	}
+	if id, ok := x.Fun.(*ast.Ident); ok {
+		// must be the package-level function of that name
+		f, isFn := t.p.info.Uses[id].(*types.Func)
+		if !isFn || f.Parent() != t.p.pkg.Scope() {
+			return "", false
+		}
+	}
+	arity := map[string]int{"getFiles": 1, "splitPath": 1, "isRootedIn": 2, "hasPrefix": 2, "hasSrcPrefix": 2, "path.Dir": 1,
+		"regexp:reModule.FindSubmatch": 1}
+	if len(x.Args) != arity[name] || x.Ellipsis.IsValid() {
+		t.fail(x, "%s: unexpected arguments", name)
+	}
+	a := func(i int) string { return atom(sub(x.Args[i])) }
+	switch name {
+	case "getFiles":
+		// context.go getFiles: the model's getFiles (sorted, distinct RemoteSrcPaths)
+		return fmt.Sprintf("(PP.getFiles %s)", a(0)), true
+	case "splitPath":
+		return fmt.Sprintf("(PP.splitPath %s)", a(0)), true
+	case "isRootedIn":
+		// translated and tied in group Scan (TrS.tie_isRootedIn); here the model function, on the same oracles
+		return fmt.Sprintf("(PP.isRootedIn (PP.FS.mk E.isFile E.readFile) %s %s)", a(0), a(1)), true
+	case "hasPrefix":
+		// TrS.tie_hasPrefix
+		return fmt.Sprintf("(PP.mapHasPrefix %s %s)", a(0), a(1)), true
+	case "hasSrcPrefix":
+		// TrS.tie_hasSrcPrefix
+		return fmt.Sprintf("(PP.hasSrcPrefix %s %s)", a(0), a(1)), true
+	case "path.Dir":
+		return fmt.Sprintf("(PP.pathDir %s)", a(0)), true
+	case "regexp:reModule.FindSubmatch":
+		// nil when there is no match, otherwise [whole match (placeholder, never read), group 1]
+		return fmt.Sprintf("(reModuleSubmatch %s)", a(0)), true
+	}
+	return "", false
+}
+
+func isSubExpr(info *types.Info, e ast.Expr) (*ast.BinaryExpr, bool) {
+	if e == nil {
+		return nil, false
+	}
+	b, ok := unparen(e).(*ast.BinaryExpr)
+	if !ok || b.Op != token.SUB {
+		return nil, false
+	}
+	if tv, ok := info.Types[e]; ok && tv.Value != nil {
+		return nil, false // a constant: folded
+	}
+	if bt, ok := info.Types[b.X].Type.Underlying().(*types.Basic); !ok || bt.Info()&types.IsInteger == 0 {
+		return nil, false
+	}
+	return b, true
+}
+
+// bindBound: a slice bound or an index.  A difference a - b is goSub a b: `none` (a panic) when it is
+// negative, which is what Go does with a negative bound or index at run time.
+func (t *translator) bindBound(e ast.Expr, k func(string) string) string {
+	b, ok := isSubExpr(t.p.info, e)
+	if !ok {
+		return t.bind(e, k)
+	}
+	return t.bind(b.X, func(x string) string {
+		return t.bind(b.Y, func(y string) string {
+			v := t.fresh()
+			return fmt.Sprintf("(goSub %s %s).bind fun %s =>\n%s%s", atom(x), atom(y), v, t.ind(), k(v))
+		})
+	})
+}
+
+// bindRoots: slice expressions and indexings one of whose bounds is a difference
+func (t *translator) bindRoots(e ast.Expr, k func(string) string) (string, bool) {
+	switch x := e.(type) {
+	case *ast.SliceExpr:
+		_, ls := isSubExpr(t.p.info, x.Low)
+		_, hs := isSubExpr(t.p.info, x.High)
+		if x.Slice3 || (!ls && !hs) {
+			return "", false
+		}
+		return t.bind(x.X, func(base string) string {
+			lo := func(k func(string) string) string {
+				if x.Low == nil {
+					return k("0")
+				}
+				return t.bindBound(x.Low, k)
+			}
+			hi := func(k func(string) string) string {
+				if x.High == nil {
+					return k("(len " + base + ")")
+				}
+				return t.bindBound(x.High, k)
+			}
+			return lo(func(l string) string {
+				return hi(func(h string) string {
+					v := t.fresh()
+					return fmt.Sprintf("(goSlice %s %s %s).bind fun %s =>\n%s%s", atom(base), atom(l), atom(h), v, t.ind(), k(v))
+				})
+			})
+		}), true
+	case *ast.IndexExpr:
+		if _, isMap := t.typeOf(x.X).Underlying().(*types.Map); isMap {
+			return "", false
+		}
+		if _, is := isSubExpr(t.p.info, x.Index); !is {
+			return "", false
+		}
+		return t.bind(x.X, func(base string) string {
+			return t.bindBound(x.Index, func(idx string) string {
+				v := t.fresh()
+				return fmt.Sprintf("(%s[%s]?).bind fun %s =>\n%s%s", base, idx, v, t.ind(), k(v))
+			})
+		}), true
+	}
+	return "", false
+}
+
+func isEmptyStruct(ty types.Type) bool {
+	st, ok := ty.Underlying().(*types.Struct)
+	return ok && st.NumFields() == 0
+}
+
+func isStringType(ty types.Type) bool {
+	b, ok := ty.Underlying().(*types.Basic)
+	return ok && b.Info()&types.IsString != 0
+}
+
+func (t *translator) hasMutCall(e ast.Node) bool {
+	found := false
+	ast.Inspect(e, func(n ast.Node) bool {
+		if c, ok := n.(*ast.CallExpr); ok {
+			if sel, ok := c.Fun.(*ast.SelectorExpr); ok {
+				if tv, ok := t.p.info.Types[sel.X]; ok && t.mutating[structName(tv.Type)+"_"+sel.Sel.Name] {
+					found = true
+				}
+			}
+		}
+		return true
+	})
+	return found
+}
+
+// assignMapRoots: m[k] = v on a map (a path rooted in a local): the map is replaced by the updated one
+func (t *translator) assignMapRoots(n ast.Node, lhs, rhs ast.Expr, val string, cont func() string) (string, bool) {
+	ix, ok := unparen(lhs).(*ast.IndexExpr)
+	if !ok {
+		return "", false
+	}
+	m, ok := t.typeOf(ix.X).Underlying().(*types.Map)
+	if !ok {
+		return "", false
+	}
+	base, okb := t.pure(ix.X)
+	if !okb {
+		t.fail(n, "assignment into a map that is not a plain path")
+	}
+	if mp, ok := mapPath(ix.X); !ok || !t.mapInit[mp] {
+		// the model's list cannot tell a nil map from an empty one, and Go panics on an assignment into a nil map
+		t.fail(n, "assignment into a map that may be nil (it is not assigned a map literal at the start of the function)")
+	}
+	if t.hasMutCall(ix.Index) {
+		// Go evaluates the map operand before the key; here the map is read after the key's write-back
+		t.fail(n, "m[k] = v where k calls a method that assigns through its receiver")
+	}
+	if isEmptyStruct(m.Elem()) {
+		// m[k] = struct{}{}
+		cl, isLit := rhs.(*ast.CompositeLit)
+		if rhs == nil || !isLit || len(cl.Elts) != 0 {
+			t.fail(n, "a set element assigned something other than struct{}{}")
+		}
+		return t.bind(ix.Index, func(idx string) string {
+			return t.assignVal(n, ix.X, nil, fmt.Sprintf("(SSet.insert %s %s)", atom(base), atom(idx)), cont)
+		}), true
+	}
+	if !isStringType(m.Key()) || !isStringType(m.Elem()) {
+		t.fail(n, "assignment into a map of type %s", m)
+	}
+	_, pureIdx := t.pure(ix.Index)
+	pureRhs := rhs == nil
+	if rhs != nil {
+		_, pureRhs = t.pure(rhs)
+	}
+	if !pureIdx && !pureRhs {
+		t.fail(n, "m[k] = v where both k and v can panic or have an effect")
+	}
+	if rhs != nil && t.hasMutCall(rhs) {
+		t.fail(n, "m[k] = v where v calls a method that assigns through its receiver")
+	}
+	return t.bind(ix.Index, func(idx string) string {
+		withVal := func(k func(string) string) string {
+			if rhs == nil {
+				return k(val)
+			}
+			return t.bind(rhs, k)
+		}
+		return withVal(func(v string) string {
+			return t.assignVal(n, ix.X, nil, fmt.Sprintf("(AMap.insert %s %s %s)", atom(base), atom(idx), atom(v)), cont)
+		})
+	}), true
+}
+
+// assignRoots: the assignment forms of group Roots (comma-ok map lookups, os.ReadFile) and the guard
+// against copies of maps
+func (t *translator) assignRoots(x *ast.AssignStmt, rest []ast.Stmt, end trEnd) (string, bool) {
+	// Go maps are references: a map value may only be a fresh literal
+	isMap := func(ty types.Type) bool { _, ok := ty.Underlying().(*types.Map); return ok }
+	for _, r := range x.Rhs {
+		ty := t.typeOf(r)
+		if tup, ok := ty.(*types.Tuple); ok {
+			for i := 0; i < tup.Len(); i++ {
+				if isMap(tup.At(i).Type()) {
+					t.fail(x, "a map returned by a call (maps are references)")
+				}
+			}
+			continue
+		}
+		if isMap(ty) {
+			if _, lit := unparen(r).(*ast.CompositeLit); !lit {
+				t.fail(x, "copy of a map value (maps are references; only a map literal may be assigned)")
+			}
+		}
+	}
+	if len(x.Lhs) != 2 || len(x.Rhs) != 1 {
+		return "", false
+	}
+	ids := [2]*ast.Ident{}
+	for i, l := range x.Lhs {
+		id, ok := l.(*ast.Ident)
+		if !ok {
+			return "", false
+		}
+		ids[i] = id
+	}
+	newVar := func(id *ast.Ident) bool { return id.Name == "_" || t.p.info.Defs[id] != nil }
+	// v, ok := m[k]
+	if ix, ok := unparen(x.Rhs[0]).(*ast.IndexExpr); ok {
+		m, ok := t.typeOf(ix.X).Underlying().(*types.Map)
+		if !ok {
+			return "", false
+		}
+		if x.Tok != token.DEFINE || !newVar(ids[0]) || !newVar(ids[1]) {
+			t.fail(x, "v, ok = m[k] into existing variables")
+		}
+		base, okb := t.pure(ix.X)
+		if !okb {
+			t.fail(x, "lookup in a map that is not a plain path")
+		}
+		set := isEmptyStruct(m.Elem())
+		if !set && (!isStringType(m.Key()) || !isStringType(m.Elem())) {
+			t.fail(x, "lookup in a map of type %s", m)
+		}
+		return t.bind(ix.Index, func(idx string) string {
+			var sb strings.Builder
+			if ids[0].Name != "_" {
+				if set {
+					t.fail(x, "the value of a set lookup")
+				}
+				t.declare(lid(ids[0].Name), "Bytes", t.p.info.Defs[ids[0]])
+				fmt.Fprintf(&sb, "let %s : Bytes := (AMap.get %s %s)\n%s", lid(ids[0].Name), atom(base), atom(idx), t.ind())
+			}
+			if ids[1].Name != "_" {
+				fn := "AMap.contains"
+				if set {
+					fn = "SSet.contains"
+				}
+				t.declare(lid(ids[1].Name), "Bool", t.p.info.Defs[ids[1]])
+				fmt.Fprintf(&sb, "let %s : Bool := (%s %s %s)\n%s", lid(ids[1].Name), fn, atom(base), atom(idx), t.ind())
+			}
+			return sb.String() + t.stmts(rest, end)
+		}), true
+	}
+	// b, err := os.ReadFile(p); if err != nil { … leaves … }; rest
+	if call, ok := x.Rhs[0].(*ast.CallExpr); ok && t.isPkgSel(call.Fun, "os", "ReadFile") && len(call.Args) == 1 {
+		bad := func() {
+			t.fail(x, "os.ReadFile must be used as: b, err := os.ReadFile(p); if err != nil { return/continue/break }")
+		}
+		if x.Tok != token.DEFINE || t.p.info.Defs[ids[0]] == nil || t.p.info.Defs[ids[1]] == nil {
+			bad()
+		}
+		bObj, errObj := t.p.info.Defs[ids[0]], t.p.info.Defs[ids[1]]
+		var guard *ast.IfStmt
+		if len(rest) > 0 {
+			guard, _ = rest[0].(*ast.IfStmt)
+		}
+		if guard == nil || guard.Init != nil || guard.Else != nil || !terminates(guard.Body.List) {
+			bad()
+		}
+		cond, okc := guard.Cond.(*ast.BinaryExpr)
+		if !okc || cond.Op != token.NEQ {
+			bad()
+		}
+		ci, ok1 := cond.X.(*ast.Ident)
+		ni, ok2 := cond.Y.(*ast.Ident)
+		if !ok1 || !ok2 || t.p.info.Uses[ci] != errObj || ni.Name != "nil" {
+			bad()
+		}
+		if usesObjIn(t.p.info, guard.Body.List, bObj) || usesObjIn(t.p.info, guard.Body.List, errObj) || usesObjIn(t.p.info, rest[1:], errObj) {
+			t.fail(x, "the error of os.ReadFile is read (only its being nil is modelled), or the data is read where it failed")
+		}
+		return t.bind(call.Args[0], func(p string) string {
+			saveScope := copyScope(t.scope)
+			t.depth++
+			a := t.stmts(guard.Body.List, func() string { t.fail(x, "unreachable"); return "" })
+			t.scope = copyScope(saveScope)
+			t.declare(lid(ids[0].Name), "Bytes", bObj)
+			b := t.stmts(rest[1:], end)
+			t.depth--
+			t.scope = saveScope
+			return fmt.Sprintf("match E.readFile %s with\n%s| none =>\n%s  (%s)\n%s| some %s =>\n%s  %s", atom(p), t.ind(), t.ind(), a, t.ind(), lid(ids[0].Name), t.ind(), b)
+		}), true
+	}
+	return "", false
+}
+
+// ifRoots: the if statements with jumps (x.Init == nil)
+func (t *translator) ifRoots(x *ast.IfStmt, rest []ast.Stmt, end trEnd) (string, bool) {
+	if t.isGOOSWindows(x.Cond) {
+		if x.Else != nil {
+			t.fail(x, "if runtime.GOOS == \"windows\" with an else branch")
+		}
+		return t.stmts(rest, end), true
+	}
+	var el []ast.Stmt
+	switch e := x.Else.(type) {
+	case *ast.BlockStmt:
+		el = e.List
+	case *ast.IfStmt:
+		el = []ast.Stmt{e}
+	}
+	thenT := terminates(x.Body.List)
+	elseT := x.Else != nil && terminates(el)
+	if thenT && (x.Else == nil || elseT) {
+		return "", false // if c then A else B / rest
+	}
+	if !hasJump(x.Body) && (x.Else == nil || !hasJump(x.Else)) {
+		return "", false // assignment-only branches
+	}
+	unreachable := func() string { t.fail(x, "unreachable"); return "" }
+	if thenT || elseT {
+		// exactly one branch leaves; the other one is followed by the rest
+		return t.bind(x.Cond, func(c string) string {
+			saveScope := copyScope(t.scope)
+			t.depth++
+			var a, b string
+			if thenT {
+				a = t.stmts(x.Body.List, unreachable)
+				t.scope = copyScope(saveScope)
+				b = t.stmts(append(append([]ast.Stmt{}, el...), rest...), end)
+			} else {
+				a = t.stmts(append(append([]ast.Stmt{}, x.Body.List...), rest...), end)
+				t.scope = copyScope(saveScope)
+				b = t.stmts(el, unreachable)
+			}
+			t.depth--
+			t.scope = saveScope
+			return fmt.Sprintf("if %s then\n%s  %s\n%selse\n%s  %s", c, t.ind(), a, t.ind(), t.ind(), b)
+		}), true
+	}
+	// a join block: both branches can fall through, at least one can jump
+	vs := t.assignedObj(x, append(append([]trLocal{}, t.params...), t.scope...))
+	for _, v := range vs {
+		inScope := false
+		for _, l := range t.scope {
+			if l.name == v.name && l.obj == v.obj {
+				inScope = true
+			}
+		}
+		if !inScope {
+			t.fail(x, "assignment to %s, which is not a local variable of the function", v.name)
+		}
+	}
+	return t.bind(x.Cond, func(c string) string {
+		saveScope := copyScope(t.scope)
+		t.frames = append(t.frames, trFrame{vs: vs, resTy: "(Step " + tupleType(vs) + " " + t.curRes() + ")"})
+		fall := func() string {
+			t.checkVs(x, vs)
+			return "some (.cont " + atom(tuple(vs)) + ")"
+		}
+		t.depth++
+		a := t.stmts(x.Body.List, fall)
+		t.scope = copyScope(saveScope)
+		b := fall()
+		if x.Else != nil {
+			b = t.stmts(el, fall)
+			t.scope = copyScope(saveScope)
+		}
+		t.depth--
+		t.frames = t.frames[:len(t.frames)-1]
+		t.scope = saveScope
+		pat := tuple(vs)
+		un := ""
+		if len(vs) == 0 {
+			pat = "_"
+		}
+		if len(vs) > 1 {
+			pat = "st"
+			un = unpack(vs, "st", t.ind())
+		}
+		r := t.stmts(rest, end)
+		return fmt.Sprintf("after (σ := %s) (if %s then\n%s  %s\n%selse\n%s  %s) fun %s =>\n%s%s%s", tupleType(vs), c, t.ind(), a, t.ind(), t.ind(), b, pat, un, t.ind(), r)
+	}), true
+}
+
+// objsIn: the variables an expression reads
+func (t *translator) objsIn(e ast.Expr) map[types.Object]bool {
+	set := map[types.Object]bool{}
+	ast.Inspect(e, func(n ast.Node) bool {
+		if id, ok := n.(*ast.Ident); ok {
+			if v, ok := t.p.info.Uses[id].(*types.Var); ok {
+				set[v] = true
+			}
+		}
+		return true
+	})
+	return set
+}
+
+// forRoots: for i := a; i < b; i++  and  for i := a; i > b; i--
+func (t *translator) forRoots(x *ast.ForStmt, cont func() string) string {
+	as, ok1 := x.Init.(*ast.AssignStmt)
+	cond, ok2 := x.Cond.(*ast.BinaryExpr)
+	post, ok3 := x.Post.(*ast.IncDecStmt)
+	if !ok1 || !ok2 || !ok3 || as.Tok != token.DEFINE || len(as.Lhs) != 1 || len(as.Rhs) != 1 {
+		t.fail(x, "unsupported for statement")
+	}
+	up := cond.Op == token.LSS && post.Tok == token.INC
+	down := cond.Op == token.GTR && post.Tok == token.DEC
+	iv, isId := as.Lhs[0].(*ast.Ident)
+	if !isId || (!up && !down) {
+		t.fail(x, "unsupported for statement")
+	}
+	ivObj := t.p.info.Defs[iv]
+	if ci, ok := cond.X.(*ast.Ident); !ok || t.p.info.Uses[ci] != ivObj {
+		t.fail(x, "loop condition does not test the loop variable")
+	}
+	if pi, ok := post.X.(*ast.Ident); !ok || t.p.info.Uses[pi] != ivObj {
+		t.fail(x, "loop post statement does not step the loop variable")
+	}
+	if bt, ok := t.typeOf(iv).Underlying().(*types.Basic); !ok || bt.Kind() != types.Int {
+		t.fail(x, "loop variable of type %s", t.typeOf(iv))
+	}
+	set := t.assignedSet(x.Body)
+	if set[ivObj] {
+		t.fail(x, "loop variable assigned in the body")
+	}
+	for o := range t.objsIn(cond.Y) {
+		if set[o] {
+			t.fail(x, "the loop bound reads %s, which the body assigns", o.Name())
+		}
+	}
+	a, okA := t.pure(as.Rhs[0])
+	b, okB := t.pure(cond.Y)
+	if !okA || !okB {
+		t.fail(x, "impure loop bounds")
+	}
+	var rng string
+	if up {
+		rng = fmt.Sprintf("(List.range' %s (%s - %s))", a, b, a)
+	} else if b == "0" {
+		// i = a, a-1, …, 1
+		rng = fmt.Sprintf("(List.range' 1 %s).reverse", atom(a))
+	} else {
+		// i = a, a-1, …, b+1 (none when a ≤ b)
+		rng = fmt.Sprintf("(List.range' (%s + 1) (%s - %s)).reverse", b, a, b)
+	}
+	return t.loopRoots(x, nil, nil, iv, x.Body, &rng, cont)
+}
+
+// rangeAliasGuard: the slice a loop ranges over must not be written through the same path in the body
+func (t *translator) rangeAliasGuard(n ast.Node, rangeX ast.Expr, body *ast.BlockStmt) {
+	e := unparen(rangeX)
+	if _, isCall := e.(*ast.CallExpr); isCall {
+		return
+	}
+	firstField := func(e ast.Expr) (types.Object, string, bool) {
+		// root variable, the field selected on it first ("" if none), whole = the expression is the variable itself
+		field := ""
+		whole := true
+		for {
+			switch x := e.(type) {
+			case *ast.Ident:
+				return t.p.info.ObjectOf(x), field, whole
+			case *ast.SelectorExpr:
+				field, whole = x.Sel.Name, false
+				e = x.X
+			case *ast.IndexExpr:
+				field, whole = "", false
+				e = x.X
+			case *ast.SliceExpr:
+				field, whole = "", false
+				e = x.X
+			case *ast.StarExpr:
+				e = x.X
+			case *ast.ParenExpr:
+				e = x.X
+			default:
+				return nil, "", false
+			}
+		}
+	}
+	root, fld, _ := firstField(e)
+	if root == nil {
+		t.fail(n, "range over an expression that is neither a call nor a path")
+	}
+	check := func(l ast.Expr, call bool) {
+		r, f, whole := firstField(l)
+		if r != root {
+			return
+		}
+		if whole && !call {
+			return // the variable is replaced as a whole: the slice being ranged over is not touched
+		}
+		if fld == "" || f == "" || f == fld {
+			t.fail(l, "the loop body writes through %s, which the loop ranges over", root.Name())
+		}
+	}
+	ast.Inspect(body, func(m ast.Node) bool {
+		switch s := m.(type) {
+		case *ast.AssignStmt:
+			if s.Tok != token.DEFINE {
+				for _, l := range s.Lhs {
+					check(l, false)
+				}
+			}
+		case *ast.IncDecStmt:
+			check(s.X, false)
+		case *ast.CallExpr:
+			if sel, ok := s.Fun.(*ast.SelectorExpr); ok {
+				if tv, ok := t.p.info.Types[sel.X]; ok && t.mutating[structName(tv.Type)+"_"+sel.Sel.Name] {
+					check(sel.X, true)
+				}
+			}
+		}
+		return true
+	})
+}
+
+// loopRoots is loop for group Roots: it may be nested, its body may continue / break, and its result type
+// is the result type of the context it occurs in.
+func (t *translator) loopRoots(n ast.Node, rangeX ast.Expr, key, val ast.Expr, body *ast.BlockStmt, listTerm *string, cont func() string) string {
+	outer := copyScope(t.scope)
+	vs := t.assignedObj(body, outer)
+	hasBrk := breaksLoop(body)
+	t.nloop++
+	name := fmt.Sprintf("%s_loop%d", t.fn, t.nloop)
+	keyName, valName := "_i", "_x"
+	var keyObj, valObj types.Object
+	if id, ok := key.(*ast.Ident); ok && id.Name != "_" {
+		keyName = lid(id.Name)
+		keyObj = t.p.info.ObjectOf(id)
+	}
+	if id, ok := val.(*ast.Ident); ok && id.Name != "_" {
+		valName = lid(id.Name)
+		valObj = t.p.info.ObjectOf(id)
+	}
+	step, run := "Step", "forRange"
+	if hasBrk {
+		step, run = "StepB", "forRangeB"
+	}
+	emit := func(xs string, elemType string) string {
+		// captured: params and the locals that are not loop-carried
+		var caps []trLocal
+		isState := map[string]bool{}
+		for _, v := range vs {
+			isState[v.name] = true
+		}
+		caps = append(caps, t.params...)
+		for _, l := range outer {
+			if !isState[l.name] && !strings.HasPrefix(l.name, "_") {
+				caps = append(caps, l)
+			}
+		}
+		var bind, args []string
+		seen := map[string]bool{}
+		for i := len(caps) - 1; i >= 0; i-- { // drop shadowed duplicates (keep the innermost)
+			if seen[caps[i].name] {
+				caps = append(caps[:i], caps[i+1:]...)
+				continue
+			}
+			seen[caps[i].name] = true
+		}
+		for _, c := range caps {
+			bind = append(bind, fmt.Sprintf("(%s : %s)", c.name, c.typ))
+			args = append(args, c.name)
+		}
+		resOuter := t.curRes()
+		saveScope, saveDepth, saveSt, saveIn := t.scope, t.depth, t.stVars, t.inLoop
+		t.frames = append(t.frames, trFrame{loop: true, brk: hasBrk, vs: vs, resTy: "(" + step + " " + tupleType(vs) + " " + resOuter + ")"})
+		t.inLoop, t.stVars, t.depth = true, vs, 0
+		t.scope = append(copyScope(outer), trLocal{keyName, "Nat", keyObj}, trLocal{valName, elemType, valObj})
+		b := t.stmts(body.List, func() string { return t.jumpLoop(n, false) })
+		t.frames = t.frames[:len(t.frames)-1]
+		t.inLoop, t.stVars, t.depth, t.scope = saveIn, saveSt, saveDepth, saveScope
+		def := fmt.Sprintf("def %s (E : Env) %s (%s : Nat) (%s : %s) (st : %s) : Option (%s %s %s) :=\n%s  %s\n",
+			name, strings.Join(bind, " "), keyName, valName, elemType, tupleType(vs), step, tupleType(vs), resOuter,
+			unpack(vs, "st", "  "), b)
+		t.defs = append(t.defs, def)
+		pat := tuple(vs)
+		if len(vs) == 0 {
+			pat = "_"
+		}
+		rest := cont()
+		var un string
+		if len(vs) > 1 {
+			pat = "st"
+			un = unpack(vs, "st", t.ind())
+		}
+		return fmt.Sprintf("after (%s (%s E %s) %s 0 %s) fun %s =>\n%s%s%s", run, name, strings.Join(args, " "), xs, tuple(vs), pat, un, t.ind(), rest)
+	}
+	if listTerm != nil {
+		return emit(*listTerm, "Nat")
+	}
+	var elem types.Type
+	switch c := t.typeOf(rangeX).Underlying().(type) {
+	case *types.Slice:
+		elem = c.Elem()
+	case *types.Array:
+		elem = c.Elem()
+	default:
+		// a map: the result could depend on the iteration order; a string: runes are not modelled here
+		t.fail(n, "range over %s", t.typeOf(rangeX))
+	}
+	t.rangeAliasGuard(n, rangeX, body)
+	et := t.leanType(n, elem)
+	return t.bind(rangeX, func(xs string) string { return emit(atom(xs), et) })
+}
+
+// rootsPrepass: what is checked once per function of group Roots
+func (t *translator) rootsPrepass(fd *ast.FuncDecl) {
+	known := map[string]bool{"Goroutines": true, "LocalGOROOT": true, "LocalGOPATHs": true, "RemoteGOROOT": true,
+		"RemoteGOPATHs": true, "LocalGomods": true}
+	ast.Inspect(fd.Body, func(n ast.Node) bool {
+		if sel, ok := n.(*ast.SelectorExpr); ok {
+			if tv, ok := t.p.info.Types[sel.X]; ok && structName(tv.Type) == "Snapshot" && !known[sel.Sel.Name] {
+				t.fail(sel, "Snapshot.%s is not a field of the model's Snapshot record", sel.Sel.Name)
+			}
+		}
+		return true
+	})
+	t.mapNilGuard(fd)
+	// ints are natural numbers by construction in this group; a parameter could be negative
+	if fd.Type.Params != nil {
+		for _, fld := range fd.Type.Params.List {
+			if b, ok := t.typeOf(fld.Type).Underlying().(*types.Basic); ok && b.Info()&types.IsInteger != 0 && b.Kind() != types.Uint8 {
+				t.fail(fld, "integer parameter (could be negative)")
+			}
+		}
+	}
+}
+
+// mapPath: the spelling of a variable / field path (parentheses and dereferences dropped), "" and false for
+// anything else
+func mapPath(e ast.Expr) (string, bool) {
+	switch x := e.(type) {
+	case *ast.Ident:
+		return x.Name, true
+	case *ast.ParenExpr:
+		return mapPath(x.X)
+	case *ast.StarExpr:
+		return mapPath(x.X)
+	case *ast.SelectorExpr:
+		b, ok := mapPath(x.X)
+		return b + "." + x.Sel.Name, ok
+	}
+	return "", false
+}
+
+// mapNilGuard computes t.mapInit for fd: the map-valued paths that are assigned a map literal by the
+// straight-line statements the body starts with (plus `recv` for a pointer receiver of map type, whose
+// callers are checked instead), and refuses what could make one of them nil or unknown later: an
+// assignment to a proper prefix of the path (`*s = …`, `s = …`), a call of a mutating method on such a
+// prefix, a call of a mutating method with a map receiver on anything but such a path.
+func (t *translator) mapNilGuard(fd *ast.FuncDecl) {
+	t.mapInit = map[string]bool{}
+	isMapT := func(ty types.Type) bool {
+		if p, ok := ty.Underlying().(*types.Pointer); ok {
+			ty = p.Elem()
+		}
+		_, ok := ty.Underlying().(*types.Map)
+		return ok
+	}
+	if fd.Recv != nil && len(fd.Recv.List) == 1 && len(fd.Recv.List[0].Names) == 1 {
+		if _, isPtr := fd.Recv.List[0].Type.(*ast.StarExpr); isPtr && isMapT(t.typeOf(fd.Recv.List[0].Type)) {
+			t.mapInit[fd.Recv.List[0].Names[0].Name] = true
+		}
+	}
+prefix:
+	for _, st := range fd.Body.List {
+		switch x := st.(type) {
+		case *ast.AssignStmt:
+			if len(x.Lhs) == 1 && len(x.Rhs) == 1 {
+				if cl, ok := unparen(x.Rhs[0]).(*ast.CompositeLit); ok && isMapT(t.typeOf(cl)) {
+					if mp, ok := mapPath(x.Lhs[0]); ok {
+						t.mapInit[mp] = true
+					}
+				}
+			}
+		case *ast.DeclStmt:
+		default:
+			break prefix
+		}
+	}
+	properPrefix := func(p string) string {
+		for m := range t.mapInit {
+			if len(m) > len(p) && strings.HasPrefix(m, p) && m[len(p)] == '.' {
+				return m
+			}
+		}
+		return ""
+	}
+	ast.Inspect(fd.Body, func(n ast.Node) bool {
+		switch x := n.(type) {
+		case *ast.AssignStmt:
+			if x.Tok == token.DEFINE {
+				// a new variable of the same name would be another variable: the paths are spelled by name
+				for _, l := range x.Lhs {
+					if id, ok := l.(*ast.Ident); ok && t.p.info.Defs[id] != nil {
+						for m := range t.mapInit {
+							if m == id.Name || strings.HasPrefix(m, id.Name+".") {
+								if !t.isInitStmt(fd, x) {
+									t.fail(x, "%s is declared again: the map %s could be another one", id.Name, m)
+								}
+							}
+						}
+					}
+				}
+				return true
+			}
+			for _, l := range x.Lhs {
+				if p, ok := mapPath(l); ok {
+					if m := properPrefix(p); m != "" {
+						t.fail(x, "assignment to %s replaces the map %s", p, m)
+					}
+				}
+			}
+		case *ast.CallExpr:
+			sel, ok := x.Fun.(*ast.SelectorExpr)
+			if !ok {
+				return true
+			}
+			tv, ok := t.p.info.Types[sel.X]
+			if !ok || !t.mutating[structName(tv.Type)+"_"+sel.Sel.Name] {
+				return true
+			}
+			p, isPath := mapPath(sel.X)
+			if isMapT(tv.Type) {
+				if !isPath || !t.mapInit[p] {
+					t.fail(x, "%s.%s writes the map it is called on, which may be nil here", structName(tv.Type), sel.Sel.Name)
+				}
+			} else if isPath {
+				if m := properPrefix(p); m != "" {
+					t.fail(x, "%s.%s may replace the map %s", structName(tv.Type), sel.Sel.Name, m)
+				}
+			}
+		}
+		return true
+	})
+}
+
+// isInitStmt: is st one of the top-level statements of fd's body?
+func (t *translator) isInitStmt(fd *ast.FuncDecl, st ast.Stmt) bool {
+	for _, s := range fd.Body.List {
+		if s == st {
+			return true
+		}
+	}
+	return false
+}
+
+// rootsCallersGuard: a method of the group with a pointer receiver of map type assumes a non-nil map; every
+// call of it in the package must therefore be in a function of the group (where mapNilGuard checks it)
+func (p *pkgInfo) rootsCallersGuard(trFuncs [][2]string, mutating map[string]bool) []string {
+	var failed []string
+	inGroup := map[*ast.FuncDecl]bool{}
+	for _, f := range trFuncs {
+		if fd := p.funcDecl(f[0], f[1]); fd != nil {
+			inGroup[fd] = true
+		}
+	}
+	for _, file := range p.files {
+		for _, d := range file.Decls {
+			fd, ok := d.(*ast.FuncDecl)
+			if !ok || fd.Body == nil || inGroup[fd] {
+				continue
+			}
+			ast.Inspect(fd.Body, func(n ast.Node) bool {
+				sel, ok := n.(*ast.SelectorExpr)
+				if !ok {
+					return true
+				}
+				tv, ok := p.info.Types[sel.X]
+				if !ok || !mutating[structName(tv.Type)+"_"+sel.Sel.Name] {
+					return true
+				}
+				ty := tv.Type
+				if pt, ok := ty.Underlying().(*types.Pointer); ok {
+					ty = pt.Elem()
+				}
+				if _, isMap := ty.Underlying().(*types.Map); isMap {
+					if _, isMethod := p.info.Uses[sel.Sel].(*types.Func); isMethod {
+						pos := p.fset.Position(sel.Pos())
+						failed = append(failed, fmt.Sprintf("%s.%s: used in %s (%s:%d), outside the group: its map could be nil there",
+							structName(tv.Type), sel.Sel.Name, fd.Name.Name, pos.Filename[strings.LastIndex(pos.Filename, "/")+1:], pos.Line))
+					}
+				}
+				return true
+			})
+		}
+	}
+	return failed
 }
